@@ -52,9 +52,16 @@ RULE = ('grids (CF 1-D, CF 2-D / SHOC simple with stored bounds and holes, SHOC 
         'event-based clipPathSimple; concave mesh faces go through clipPathSimple; `convex` is compared with GEOS (hull area = '
         'area), `propcheck` re-tests ends and midpoint of every Lean piece with the exact point-in-polygon. The pieces of '
         'gen/pathclip.py still feed the older `segments` line and an oracle comparison with GEOS, as a cross-check independent '
-        'of Lean. Also compared: prepared data columns. Oracle: each segment lies in its cell, is not a single point, indexes '
+        'of Lean. A path is reversed (sailed east to west, x never increasing) with probability 0.4, so the cells are met in an order '
+        'that is neither increasing nor decreasing linear index and whose sorting permutation is not its own inverse. How the dataset '
+        "*holds* its numbers varies per recipe (recipe['store']): numpy; dask-backed via `.chunk` (the data variable only, or every "
+        'variable; chunks of 1 / 2 / 3 or one chunk along the horizontal dimensions, 1 or one chunk along depth); written to netCDF '
+        'and opened with `open_dataset(chunks=...)`. On one Transect three arrays are prepared: the variable, another array of the same '
+        'name (+5000), and the same numbers held the other way round (in memory <-> chunked along the grid dimensions). Also compared: '
+        'prepared data columns (model input: the tag values of the generator, not emsarray\'s ravel). Oracle: each segment lies in its cell, is not a single point, indexes '
         'coherent, start <= end, path order, pieces equal to the exact Fraction clip, lengths add up to the path length inside '
-        'the model, data pairing. Non-trivial: >= 3 segments, or a hole / re-entry / edge-running stretch; distinct by '
+        'the model, data pairing (column j of every prepared array = the generator\'s tag values of the cell of segment j at every depth, '
+        'shape (depth, segments); an exception from the preparation is a failure of the clause, not of the run). Non-trivial: >= 3 segments, or a hole / re-entry / edge-running stretch; distinct by '
         '(recipe, path).')
 TRUSTED = ['GEOS polygon-line intersection itself (compared on every case with the proved Lean clipper on exactly representable cut '
            'points, never proved); cartopy / PROJ distances are only used for ordering',
@@ -135,11 +142,84 @@ def add_depth(built, rng):
     return ds, kdim
 
 
+STORE_DOC = """recipe['store'] says how the dataset handed to Transect *holds* its numbers (the numbers are the same):
+  None                      numpy arrays, as the generator built them
+  {'how': 'chunk', 'scope': 'var'|'all', 'grid': n|-1, 'k': n|-1}
+                            dask-backed (`.chunk`): the data variable only, or every variable of the dataset; chunks of n along
+                            every horizontal (grid) dimension, of k along the depth dimension (-1: one chunk)
+  {'how': 'file', 'grid': .., 'k': ..}
+                            written to netCDF and opened with `open_dataset(path, chunks=...)` (dask over a lazily read file)
+"""
+
+
+def random_store(rng):
+    c = rng.random()
+    if c < 0.45:
+        return None
+    how = 'file' if c < 0.6 else 'chunk'
+    return {'how': how, 'scope': rng.choice(['var', 'all']),
+            'grid': rng.choice([1, 2, 2, 3, -1]), 'k': rng.choice([1, -1])}
+
+
+def apply_store(ds, store, kdim, var_names, cleanup):
+    """the dataset of `add_depth` held as `store` says; `cleanup` collects what has to be closed / removed afterwards"""
+    if not store:
+        return ds
+    sizes = {d: (store['k'] if d == kdim else store['grid']) for d in ds.dims}
+    if store['how'] == 'file':
+        import os
+        import tempfile
+        d = tempfile.mkdtemp(prefix='verifc18')
+        path = os.path.join(d, 'ds.nc')
+        cleanup.append(lambda: (os.path.exists(path) and os.remove(path), os.rmdir(d)))
+        ds.to_netcdf(path)
+        opened = xr.open_dataset(path, chunks=sizes)
+        cleanup.insert(0, opened.close)
+        return opened
+    if store['scope'] == 'all':
+        return ds.chunk(sizes)
+    ds = ds.copy()
+    for name in var_names:
+        ds[name] = ds[name].chunk({d: sizes[d] for d in ds[name].dims})
+    return ds
+
+
+def truth_layers(info, gdims, kname='k'):
+    """[depth, linear cell index] of a tagged variable, from the generator's description of it alone (value at C-order
+    position p of the stored array is base + p): what `ravel` + moving the depth axis must give"""
+    arr = (np.arange(int(np.prod(info.shape)), dtype='f8') + info.base).reshape(info.shape)
+    perm = [info.dims.index(kname)] + [info.dims.index(d) for d in gdims]
+    arr = arr.transpose(perm)
+    return arr.reshape(arr.shape[0], -1)
+
+
 def examine(ctx, recipe, items) -> None:
+    cleanup: list = []
+    try:
+        examine_stored(ctx, recipe, items, cleanup)
+    finally:
+        for fn in cleanup:
+            try:
+                fn()
+            except Exception:
+                pass
+
+
+def examine_stored(ctx, recipe, items, cleanup) -> None:
     from emsarray import transect
     rng = ctx.rng
     built = G.build(recipe)
     ds, kdim = add_depth(built, rng)
+    store = recipe.get('store')
+    var_names = [n for n, i in built.vars.items() if i.kind is not None]
+    try:
+        ds = apply_store(ds, store, kdim, var_names, cleanup)
+    except Exception as e:      # the dataset cannot be written by xarray (nothing emsarray did): hold it chunked in memory instead
+        ctx.count(f'store:file-not-writable({type(e).__name__})')
+        store = {**store, 'how': 'chunk', 'scope': 'all'}
+        ds = apply_store(ds, store, kdim, var_names, cleanup)
+    ctx.count('store:' + ('numpy' if not store else f"{store['how']}/{store.get('scope', 'all') if store['how'] == 'chunk' else 'all'}"
+                          f"/grid-{'split' if store['grid'] != -1 else 'whole'}"))
     conv = built.conv_class(ds)
     conv.bind()
     raw = built.polys
@@ -164,6 +244,11 @@ def examine(ctx, recipe, items) -> None:
         items.append((f'convex {ring_str(q)}', cv, {'recipe': recipe, 'cell': n, 'op': f'convex {ring_str(q)}'}))
     for _ in range(3):
         path = make_path(rng, xs, ys)
+        if rng.random() < 0.4:
+            # the same track sailed the other way (x never increasing): the cells are met in another order, in general
+            # neither increasing nor decreasing linear index
+            path = path[::-1]
+            ctx.count('path:east-to-west')
         # a track may carry a third ordinate (altitude of the instrument, say): the cells are two-dimensional and the
         # path's position over them does not depend on it
         zs = [rng.choice([0, 10, 900, -50]) for _ in path] if rng.random() < 0.3 else None
@@ -274,27 +359,74 @@ def examine(ctx, recipe, items) -> None:
             diff = sorted(set(exact) ^ set(reported))[:4]
             ctx.oracle_fail('segments-differ-from-exact-clip', desc, 'per cell, the stretches of the path reported differ from the exact '
                             f'clip of the path against the cell polygon: {[(n, str(a), str(b)) for n, a, b in diff]}')
-        # data pairing
+        # data pairing: the expected columns come from the generator's description of the variable (tag base + C-order
+        # position), not from emsarray's own ravel
         if var is not None and segs:
+            info = built.vars[var]
+            layers_arr = truth_layers(info, built.grids[info.kind][0])
+            cells_of = [g[0] for g in got]
+            if any(not (0 <= c < layers_arr.shape[1]) for c in cells_of):
+                continue            # a segment of a cell that does not exist: reported above
+            want = layers_arr[:, cells_of]
+
+            def columns_of(arr):
+                """(values, complaint) of one prepared array; anything it is or raises is an answer, not a crash"""
+                try:
+                    prepared = t.prepare_data_array_for_transect(arr)
+                    vals = np.asarray(prepared.values)
+                    dims = tuple(prepared.dims)
+                except Exception as e:  # noqa
+                    return None, f'raised {type(e).__name__}: {e}'
+                if vals.shape != want.shape:
+                    return vals, f'has shape {vals.shape} (dims {dims}), expected (depth, segment) = {want.shape}'
+                return vals, None
+
+            def came_from(vals, offset=0):
+                flat_truth = {float(v) + offset: c for c, v in enumerate(layers_arr[0])}
+                return [flat_truth.get(float(v), '?') for v in vals[0]]
+
             da = ds[var]
-            prepared = t.prepare_data_array_for_transect(da)
-            flat = conv.ravel(da)
-            want = np.asarray(flat.transpose(kdim, flat.dims[-1]).values)[:, [g[0] for g in got]]
-            gotv = np.asarray(prepared.values)
+            gotv, complaint = columns_of(da)
             ctx.evaluated()
-            if gotv.shape != want.shape or not np.array_equal(gotv, want, equal_nan=True):
-                ctx.oracle_fail('transect-data-not-of-its-cell', {**desc, 'var': var}, 'prepared data columns are not the values of the segments\' cells')
+            ctx.count('prepare:' + ('dask-grid-split' if da.chunks is not None and any(
+                len(c) > 1 for d, c in zip(da.dims, da.chunks) if d != kdim) else 'dask-grid-whole' if da.chunks is not None else 'numpy'))
+            if complaint is None and not np.array_equal(gotv, want, equal_nan=True):
+                complaint = (f'columns hold the values of cells {came_from(gotv)}, the segments in path order are of cells {cells_of}')
+            if complaint is not None:
+                ctx.oracle_fail('transect-data-not-of-its-cell', {**desc, 'var': var},
+                                f'prepared data columns are not the values of the segments\' cells at every depth: {complaint}')
             # the same Transect asked again for another array of the same name and shape (another time step, an
             # anomaly): the answer is about the array that was passed, not about the first one
             da2 = (da + 5000).rename(da.name)
-            got2 = np.asarray(t.prepare_data_array_for_transect(da2).values)
+            got2, complaint2 = columns_of(da2)
             ctx.evaluated()
-            if got2.shape != want.shape or not np.array_equal(got2, want + 5000, equal_nan=True):
+            if complaint2 is not None or not np.array_equal(got2, want + 5000, equal_nan=True):
                 ctx.oracle_fail('transect-data-of-an-earlier-array', {**desc, 'var': var},
-                                'a second array of the same name prepared on the same Transect came back with other values than its own')
-            layers = ';'.join(','.join(str(int(v)) for v in row) for row in np.asarray(flat.transpose(kdim, flat.dims[-1]).values))
-            cl = f"columns {layers} {','.join(str(g[0]) for g in got)}"
-            items.append((cl, ';'.join(','.join(str(int(v)) for v in row) for row in gotv), {**desc, 'op': cl}))
+                                'a second array of the same name prepared on the same Transect came back with other values than its own'
+                                + (f': {complaint2}' if complaint2 else ''))
+            # ... and for the same numbers held the other way round (the dataset in memory, the array to plot dask-backed in
+            # small chunks along the grid dimensions, or the reverse): which cell a column belongs to does not depend on it
+            if da.chunks is None:
+                n3 = rng.choice([1, 2, 3])
+                da3 = da.chunk({d: (-1 if d == kdim else n3) for d in da.dims})
+                how3 = f'chunked by {n3} along the grid dimensions'
+            else:
+                n3 = 0
+                da3 = da.compute()
+                how3 = 'loaded into memory'
+            got3, complaint3 = columns_of(da3)
+            ctx.evaluated()
+            if complaint3 is None and not np.array_equal(got3, want, equal_nan=True):
+                complaint3 = f'columns hold the values of cells {came_from(got3)}, the segments in path order are of cells {cells_of}'
+            if complaint3 is not None:
+                ctx.oracle_fail('transect-data-not-of-its-cell', {**desc, 'var': var, 'rehold': n3},
+                                f'the same array {how3} and prepared on the same Transect: {complaint3}')
+            if gotv is not None and gotv.ndim == 2 and gotv.size:
+                layers = ';'.join(','.join(str(int(v)) for v in row) for row in layers_arr)
+                cl = f"columns {layers} {','.join(str(c) for c in cells_of)}"
+                items.append((cl, ';'.join(','.join(str(int(v)) for v in row) for row in gotv), {**desc, 'op': cl}))
+                if got3 is not None and got3.ndim == 2 and got3.size:
+                    items.append((cl, ';'.join(','.join(str(int(v)) for v in row) for row in got3), {**desc, 'rehold': n3, 'op': cl}))
 
 
 def has_concave_face(recipe) -> bool:
@@ -335,6 +467,7 @@ def make_recipe(ctx, k, concave: bool = False):
     recipe['sizes_extra'] = {'k': 2}
     probe = G.build({k_: v for k_, v in recipe.items() if k_ not in ('vars', 'sizes_extra')})
     G.finalize_var_orders(rng, recipe['vars'], probe.grids, permute=True)
+    recipe['store'] = random_store(rng)
     return recipe
 
 
@@ -352,10 +485,46 @@ def run(ctx) -> None:
     ctx.check_batch(items)
 
 
+def rerun_data(inp) -> dict:
+    """re-execute the data-pairing clause on the real code for a recorded input (recipe incl. storage, path, variable)"""
+    from emsarray import transect
+    cleanup: list = []
+    try:
+        recipe = inp['recipe']
+        built = G.build(recipe)
+        ds, kdim = add_depth(built, None)
+        ds = apply_store(ds, recipe.get('store'), kdim, [n for n, i in built.vars.items() if i.kind is not None], cleanup)
+        built.conv_class(ds).bind()
+        path = [(Fraction(x), Fraction(y)) for x, y in inp['path']]
+        zs = inp.get('z')
+        line = shapely.LineString([(float(x), float(y)) + ((float(zs[i]),) if zs else ()) for i, (x, y) in enumerate(path)])
+        t = transect.Transect(ds, line)
+        cells = [int(s.linear_index) for s in t.segments]
+        info = built.vars[inp['var']]
+        layers_arr = truth_layers(info, built.grids[info.kind][0])
+        da = ds[inp['var']]
+        if 'rehold' in inp:
+            da = da.chunk({d: (-1 if d == kdim else inp['rehold']) for d in da.dims}) if inp['rehold'] else da.compute()
+        vals = np.asarray(t.prepare_data_array_for_transect(da).values)
+        where = {float(v): c for c, v in enumerate(layers_arr[0])}
+        return {'segment_cells_in_path_order': cells, 'prepared_columns_hold_cells': [where.get(float(v), '?') for v in vals[0]],
+                'data_pairing_holds': bool(vals.shape == (layers_arr.shape[0], len(cells)) and np.array_equal(vals, layers_arr[:, cells]))}
+    finally:
+        for fn in cleanup:
+            try:
+                fn()
+            except Exception:
+                pass
+
+
 def run_one(ctx, inp):
     out = {}
     if inp.get('op') and ctx.driver:
         out['model'] = ctx.model([inp['op']])[0]
+    if inp.get('var') and inp.get('recipe') and inp.get('path') and not inp.get('op'):
+        import warnings
+        warnings.simplefilter('ignore')
+        out.update(rerun_data(inp))
     return out
 
 
